@@ -555,6 +555,7 @@ func c08Sched(c *mc.Ctx, cs c08Case, single bool) {
 		return
 	}
 	if !ex.Explore() {
+		c.Note(fmt.Sprintf("schedule tree not completed within the time cap after %d executions: %s", ex.Executions, jsonStr(cs)))
 		c.Count("sched_trees_capped", 1)
 	} else {
 		c.Count("sched_trees_completed", 1)
